@@ -58,6 +58,20 @@ Theorem c10_retries_balanced_family : forall c, In c family -> forall sched, For
 Proof. exact c10_res_family. Qed.
 Print Assumptions c10_retries_balanced_family.
 
+(* ---- upstream streams (the pools' Requests breaker and UpstreamRequestActive hang on them) ----
+   family x every schedule: a retry never starts while the previous attempt's stream is still open (each abandoned attempt was
+   reset / answered first), and when the request is over no stream of it is left open.  With timer callbacks that do not reset the
+   stream (switch set back) the retried per-try time-out leaks the timed-out attempt. *)
+Theorem c10_upstream_streams_released_family : forall c, In c family -> forall sched, Forall allowed sched ->
+  let s := final proxy_src c sched in let g := summ proxy_src c sched in
+  g_leak g = false /\
+  (wdone s = true -> cleaned s = true -> existsb is_terminate sched = false -> c_oneway c = false -> up_alive s = false).
+Proof. exact c10_streams_family. Qed.
+Print Assumptions c10_upstream_streams_released_family.
+Example c10_timer_without_reset_leaks :
+  g_leak (summ src_timer_no_reset cfg_pertry sched_pertry) = true /\ g_leak (summ src_tree cfg_pertry sched_pertry) = false.
+Proof. exact witness_timer_no_reset. Qed.
+
 (* ---- thresholds: EVERY configuration and state ----
    a retry is admitted only while the shared counter is below max_retries (or negative, as CanCreate has it), and admission
    raises it by exactly one: with max = m > 0 and a non-negative counter, the m-th simultaneous admission succeeds and the
